@@ -377,6 +377,47 @@ func (r *chainRun) observe() string {
 	return fmt.Sprintf("u=%s;j=%s;n=%d", strings.Join(u, ","), strings.Join(j, "/"), r.in.chain.BestSnapshot().TotalTxns)
 }
 
+type crashNow struct{}
+
+// process hands the block to ProcessBlock; with crashAt > 0 the call is abandoned (panic out of
+// the notification callback, which runs between two committed database transactions) right
+// after its crashAt-th block connection / disconnection.
+func (r *chainRun) process(blk *btcutil.Block, crashAt int) (res string, crashed bool) {
+	n := 0
+	if crashAt > 0 {
+		r.in.chain.Subscribe(func(nt *blockchain.Notification) {
+			if crashAt == 0 {
+				return
+			}
+			if nt.Type == blockchain.NTBlockConnected || nt.Type == blockchain.NTBlockDisconnected {
+				n++
+				if n == crashAt {
+					crashAt = 0
+					panic(crashNow{})
+				}
+			}
+		})
+	}
+	defer func() {
+		if p := recover(); p != nil {
+			if _, ok := p.(crashNow); !ok {
+				panic(p)
+			}
+			crashed = true
+		}
+		crashAt = 0
+	}()
+	_, orphan, err := r.in.chain.ProcessBlock(blk, blockchain.BFNone)
+	res = "acc"
+	if err != nil || orphan {
+		res = "rej"
+		if os.Getenv("VERIF_DEBUG") != "" {
+			fmt.Fprintf(os.Stderr, "block: %v\n", err)
+		}
+	}
+	return res, false
+}
+
 func rawBlock(blk *btcutil.Block) []byte {
 	var buf bytes.Buffer
 	if err := blk.MsgBlock().Serialize(&buf); err != nil {
@@ -394,8 +435,25 @@ func execChain(c cfg, ops []string, slot int) string {
 	var out []string
 	for _, op := range ops {
 		switch op[0] {
-		case 'B':
-			a := parseBlock(op)
+		case 'B', 'K':
+			// K<k>:<size>:<block>: the process dies right after the k-th block (dis)connection of
+			// this ProcessBlock call was committed; a start-up with cache <size> follows
+			crashAt, size := 0, uint64(0)
+			btok := op
+			if op[0] == 'K' {
+				f := strings.SplitN(op[1:], ":", 3)
+				if len(f) != 3 {
+					return "bad-op"
+				}
+				crashAt = atoi(f[0])
+				sz, err := strconv.ParseUint(f[1], 10, 64)
+				if err != nil {
+					return "bad-op"
+				}
+				size = sz
+				btok = "B" + f[2]
+			}
+			a := parseBlock(btok)
 			blk := r.b.block(a)
 			if r.b.bad {
 				return "bad-line"
@@ -417,13 +475,17 @@ func execChain(c cfg, ops []string, slot int) string {
 					}
 				}
 			}
-			_, orphan, err := r.in.chain.ProcessBlock(blk, blockchain.BFNone)
-			res := "acc"
-			if err != nil || orphan {
-				res = "rej"
-				if os.Getenv("VERIF_DEBUG") != "" {
-					fmt.Fprintf(os.Stderr, "block %d: %v\n", a.id, err)
+			res, crashed := r.process(blk, crashAt)
+			if crashed {
+				c.cache = size
+				ch, err := blockchain.New(&blockchain.Config{
+					DB: r.in.db, ChainParams: r.b.params, TimeSource: blockchain.NewMedianTime(), UtxoCacheMaxSize: size,
+				})
+				if err != nil {
+					return "restart-failed"
 				}
+				r.in.chain = ch
+				res = "crash"
 			}
 			tip := r.b.blkID[r.in.chain.BestSnapshot().Hash]
 			out = append(out, fmt.Sprintf("%s:%d", res, tip))
